@@ -168,6 +168,29 @@ def main():
                 return True
         return False
     judge('RecipesTrace.tla', 'RecipesTrace.cfg', RF, corrupt(thr, wrong_tally), 'a pass stores a tally that is not Throttle!Try', False)
+    # ---- ShardCreate plans on the real FanoutCache
+    from harness import killdriver, plans
+    pl, _ = plans.tlc_plans('ShardCreatePlan.tla', 'ShardCreatePlan.cfg', timeout=300)
+    random.Random(3).shuffle(pl)
+    sc = [killdriver.run_shard_plan(p, 2, i + 1) for i, p in enumerate(pl[:12])]
+    SF = ('id', 'ev')
+    judge('ShardCreateTrace.tla', 'ShardCreateTrace.cfg', SF, copy.deepcopy(sc), 'unchanged (12 plans, each open forked and killed as planned)', True)
+
+    def undivided(t):
+        for e in t['ev']:
+            if 'Dshare' in e['obs_stored']:
+                e['obs_stored'][e['obs_stored'].index('Dshare')] = 'full'
+                return True
+        return False
+    judge('ShardCreateTrace.tla', 'ShardCreateTrace.cfg', SF, corrupt(sc, undivided), 'a shard stores the undivided default', False)
+
+    def no_db(t):
+        for e in t['ev']:
+            if 'set' in e['obs_phase']:
+                e['obs_phase'][e['obs_phase'].index('set')] = 'db'
+                return True
+        return False
+    judge('ShardCreateTrace.tla', 'ShardCreateTrace.cfg', SF, corrupt(sc, no_db), 'a shard the model says is complete has no stored limit', False)
     print('%d corruption(s) accepted' % len(FAIL))
     sys.exit(1 if FAIL else 0)
 
